@@ -162,10 +162,15 @@ def kind_of(t):
 class Env:
     """Typing environment just rich enough to resolve struct field indices and owner labels."""
 
-    def __init__(self, owner="global"):
+    def __init__(self, owner="global", owners=None, var_types=None, structs=None):
         self.owner = owner
-        self.var_types = {"s": "S", "t": "T2", "sa": "S[2]"}
+        self.owners = owners or {}            # name -> owner label (default: self.owner)
+        self.var_types = var_types if var_types is not None else {"s": "S", "t": "T2", "sa": "S[2]"}
         self.func_ret = {}
+        self.structs = structs if structs is not None else STRUCTS
+
+    def owner_of(self, name):
+        return self.owners.get(name, self.owner)
 
     def type_of(self, t, bound):
         k = t[0]
@@ -173,8 +178,8 @@ class Env:
             return self.var_types.get(t[1])
         if k == "dot":
             st = self.type_of(t[1], bound)
-            if st in STRUCTS:
-                for n, ty in STRUCTS[st]:
+            if st in self.structs:
+                for n, ty in self.structs[st]:
                     if n == t[2]:
                         return ty
             return None
@@ -200,7 +205,7 @@ def dump(t, env=None, bound=()):
         for lvl in range(len(bound) - 1, -1, -1):
             if bound[lvl] == n:
                 return "(IDENTIFIER %s@bound%d)" % (n, lvl)
-        return "(IDENTIFIER %s@%s)" % (n, env.owner)
+        return "(IDENTIFIER %s@%s)" % (n, env.owner_of(n))
     if k == "int":
         return "(CONSTANT i %d)" % t[1]
     if k == "bool":
@@ -221,10 +226,10 @@ def dump(t, env=None, bound=()):
         return "(ARRAY %s %s)" % (dump(t[1], env, bound), dump(t[2], env, bound))
     if k == "dot":
         st = env.type_of(t[1], bound)
-        idx = [n for n, _ in STRUCTS[st]].index(t[2])
+        idx = [n for n, _ in env.structs[st]].index(t[2])
         return "(DOT #%d %s .%s)" % (idx, dump(t[1], env, bound), t[2])
     if k == "call":
-        return "(FUN_CALL %s)" % " ".join(["(IDENTIFIER %s@%s)" % (t[1], env.owner)] + [dump(x, env, bound) for x in t[2]])
+        return "(FUN_CALL %s)" % " ".join(["(IDENTIFIER %s@%s)" % (t[1], env.owner_of(t[1]))] + [dump(x, env, bound) for x in t[2]])
     if k == "builtin":
         return "(%s %s)" % (t[1], " ".join(dump(x, env, bound) for x in t[2]))
     if k == "quant":
